@@ -17,6 +17,7 @@ import (
 	"go/parser"
 	"go/token"
 	"go/types"
+	"path/filepath"
 	"sort"
 	"strings"
 
@@ -74,6 +75,7 @@ type FlagRegion struct {
 }
 
 type TmplInstance struct {
+	PType    string // name of the user's parser type ("_P" in the synthetic prelude)
 	Regions  []FlagRegion
 	Flags    map[string]bool
 	Fset     *token.FileSet
@@ -145,6 +147,9 @@ func (ti *TmplInstance) TmplOf(pos token.Pos) string {
 }
 
 func (ti *TmplInstance) FuncDecl(name string) (*ast.FuncDecl, string) {
+	if strings.HasPrefix(name, "_P.") && ti.PType != "" {
+		name = ti.PType + name[2:]
+	}
 	recv, meth := "", name
 	if i := strings.Index(name, "."); i >= 0 {
 		recv, meth = name[:i], name[i+1:]
@@ -802,7 +807,7 @@ func instantiate(p *Program, ts *TemplateSet, flags map[string]bool) (*TmplInsta
 	if err != nil {
 		return nil, err
 	}
-	ti := &TmplInstance{Flags: flags, Fset: token.NewFileSet(), Files: map[string]*ast.File{}, Sources: map[string]string{}, Prods: m.prods}
+	ti := &TmplInstance{PType: "_P", Flags: flags, Fset: token.NewFileSet(), Files: map[string]*ast.File{}, Sources: map[string]string{}, Prods: m.prods}
 	fc := func(goType, field string) error {
 		i := strings.Index(goType, ".")
 		pkgName, typName := goType[:i], goType[i+1:]
@@ -982,4 +987,62 @@ func (ta *TmplAll) Variant(flag string, val bool) *TmplInstance {
 		}
 	}
 	return nil
+}
+
+// instanceView presents a checked-in generated package as if it were a template instance, so that
+// the reader-side rules can be applied to the concrete files too (thorough tier).
+func instanceView(c *Ctx, dir string) (*TmplInstance, error) {
+	p := c.Prog
+	pk := p.Pkg(dir)
+	if pk == nil {
+		return nil, fmt.Errorf("package %s not loaded", dir)
+	}
+	pname, onBounds := parserTypeOf(pk)
+	if pname == "" {
+		return nil, fmt.Errorf("no parser type in %s", dir)
+	}
+	ta := c.Templates()
+	if ta.Err != nil {
+		return nil, ta.Err
+	}
+	flags := map[string]bool{}
+	for _, f := range ta.Set.Flags {
+		flags[f] = onBounds
+	}
+	ti := &TmplInstance{PType: pname, Flags: flags, Fset: p.Fset, Files: map[string]*ast.File{}, Sources: map[string]string{}, Pkg: pk.Types, Info: pk.TypesInfo}
+	for _, f := range pk.Syntax {
+		if !isGenFile(p, f) {
+			continue
+		}
+		ti.AllFiles = append(ti.AllFiles, f)
+		base := filepath.Base(p.Fset.Position(f.Pos()).Filename)
+		ti.Files[base] = f
+	}
+	if len(ti.AllFiles) < 3 {
+		return nil, fmt.Errorf("%s: %d generated files", dir, len(ti.AllFiles))
+	}
+	return ti, nil
+}
+
+// onInstances runs fn once per checked-in generated package, with the template variants replaced
+// by that package and construct keys prefixed by its directory.
+func onInstances(c *Ctx, fn func(c *Ctx)) {
+	ta := c.Templates()
+	if ta.Err != nil {
+		c.unres("INSTANCES", "templates", "", "%v", ta.Err)
+		return
+	}
+	saved := c.tmplAll
+	for _, dir := range instanceDirs {
+		ti, err := instanceView(c, dir)
+		if err != nil {
+			c.unres("INSTANCES", dir, "", "%v", err)
+			continue
+		}
+		c.tmplAll = &TmplAll{Set: saved.Set, Variants: []*TmplInstance{ti}}
+		c.prefix = dir + ":"
+		fn(c)
+		c.prefix = ""
+		c.tmplAll = saved
+	}
 }
